@@ -472,3 +472,32 @@ def check(run, prog, tier):
     import rules.C06 as c06
     run.rule("C01-j", "use after free through function pointers: " + c06.FUNPTR_COPY_DESC, 1)
     c06.funptr_copy_rule(run, prog, "C01-j")
+
+    # ---- C01-k bulk copies address a container's storage, not its header
+    run.rule("C01-k", "no memcpy/memmove/memcmp operand is the header of an LPC container (buffer_t*, array_t*, mapping_t*): the bytes live in ->item; a header operand copies the reference count and size fields into LPC-visible data (program_t images written by save_binary are the reviewed exception)", 1)
+    HDR = ("struct buffer_s *", "struct array_s *", "struct mapping_s *", "struct object_s *")
+    nm = 0
+    for f in sorted(prog.functions(), key=lambda x: (x.file, x.line)):
+        sites = [(b, i, n) for b, i, n in f.calls() if n.get("fn") in ("memcpy", "memmove", "memcmp", "__builtin_memcpy", "__builtin_memmove") and len(n.get("args", [])) >= 3]
+        if not sites:
+            continue
+        for j, (b, i, n) in enumerate(sorted(sites, key=lambda x: x[2].get("l") or 0)):
+            bad = None
+            touches = False
+            for k in (0, 1):
+                x = n["args"][k]
+                while isinstance(x, dict) and x.get("k") in ("Cast", "ICast"):
+                    x = x.get("e")
+                t = (x or {}).get("t") or ""
+                if any(w.get("k") == "Mem" and w.get("f") == "item" and w.get("rec") in ("buffer_s", "buffer_t", "array_s", "array_t") for w in walk(n["args"][k])) or t in HDR:
+                    touches = True
+                if t in HDR:
+                    bad = (k, t, show(x)[:40])
+            if not touches:
+                continue
+            nm += 1
+            run.saw(f)
+            run.ob("C01-k", "bulk-copy:%s:%s:%d" % (rel(f.file), f.name, j), bad is None, "%s: operands address item storage" % show(n)[:60] if bad is None else
+                   "%s: operand %d `%s` is a %s header, not its ->item storage" % (show(n)[:60], bad[0] + 1, bad[2], bad[1]), f.file, n.get("l"), f.name,
+                   what="%s copies from/to the header of an LPC container instead of its item storage" % f.name)
+    run.need(nm >= 10, "bulk copies touching LPC container storage (found %d)" % nm)
